@@ -148,10 +148,15 @@ class _OneofRun:
         self.groups: Dict[str, List[Member]] = {}
         for mem in self.members:
             self.groups.setdefault(mem.group, []).append(mem)
-        self.sel: Dict[str, Optional[str]] = {g: None for g in self.groups}
-        self.val: Dict[str, Any] = {}
-        self.m = None
+        # up to two live objects: after a restart-by-copy the source object stays alive as a sibling
+        # with its own model, so that a copy and its original are observed independently
+        self.live: List[Dict[str, Any]] = [dict(m=None, sel={g: None for g in self.groups}, val={})]
+        self.cur = 0
         self.steps = 0
+
+    m = property(lambda self: self.live[self.cur]["m"], lambda self, v: self.live[self.cur].__setitem__("m", v))
+    sel = property(lambda self: self.live[self.cur]["sel"], lambda self, v: self.live[self.cur].__setitem__("sel", v))
+    val = property(lambda self: self.live[self.cur]["val"], lambda self, v: self.live[self.cur].__setitem__("val", v))
 
     # ---- model helpers ----------------------------------------------------------------------
     def _reset(self):
@@ -312,15 +317,26 @@ class _OneofRun:
         kind = self.tape.draw(5, "restart")
         m = self.m
         if kind == 0:
-            self.m = copy.copy(m)
+            new = copy.copy(m)
         elif kind == 1:
-            self.m = copy.deepcopy(m)
+            new = copy.deepcopy(m)
         elif kind == 2:
-            self.m = pickle.loads(pickle.dumps(m))
+            new = pickle.loads(pickle.dumps(m))
         elif kind == 3:
-            self.m = self.cls.FromString(bytes(m))
+            new = self.cls.FromString(bytes(m))
         else:
-            self.m = self.cls.from_dict(m.to_dict())
+            new = self.cls.from_dict(m.to_dict())
+        src = self.live[self.cur]
+        model_vals = {}
+        for k, v in src["val"].items():
+            mem = self.by_name[k]
+            # a fresh, equal value for the copy's model (never share objects between the two models)
+            idx = next((i for i, var in enumerate(mem.variants) if _eqv(var[0](), v)), None)
+            model_vals[k] = mem.variants[idx][0]() if idx is not None else copy.deepcopy(v)
+        fork = dict(m=new, sel=dict(src["sel"]), val=model_vals)
+        self.live = [src, fork]      # the source stays alive; an older sibling is dropped
+        self.cur = 1
+        self.stats["probe:copy-and-original-both-alive"] += 1
         self.stats[f"fault:restart-{('copy', 'deepcopy', 'pickle', 'FromString-bytes', 'from_dict-to_dict')[kind]}"] += 1
         return "restart:" + ("copy", "deepcopy", "pickle", "FromString(bytes)", "from_dict(to_dict)")[kind]
 
@@ -380,6 +396,16 @@ class _OneofRun:
 
     # ---- oracle -------------------------------------------------------------------------------
     def check(self, after: str):
+        keep = self.cur
+        try:
+            for i in range(len(self.live)):
+                self.cur = i
+                who = "" if len(self.live) == 1 else (" [object acted on]" if i == keep else " [its sibling: the other of copy/original]")
+                self._check_one(after + who)
+        finally:
+            self.cur = keep
+
+    def _check_one(self, after: str):
         m = self.m
         for g, mems in self.groups.items():
             exp = self.sel[g]
@@ -450,6 +476,8 @@ class _OneofRun:
         faulted = False
         restarts = 0
         for _ in range(n_ops - 1):
+            if len(self.live) == 2:
+                self.cur = t.draw(2, "target-object")
             k = t.weighted([2, 5, 2, 4, 3, 3, 2], "op")
             op = (self.op_construct, self.op_set_member, self.op_set_plain, self.op_parse, self.op_from_dict,
                   self.op_restart, self.op_faulted_load)[k]
@@ -473,7 +501,7 @@ class _OneofRun:
     def _after(self, desc: str):
         self.steps += 1
         self.check(desc)
-        self.trace.append(f"{self.steps:2d} {desc} -> " + " ".join(f"{g}={self.sel[g]}" for g in self.groups))
+        self.trace.append(f"{self.steps:2d} obj{self.cur} {desc} -> " + " ".join(f"{g}={self.sel[g]}" for g in self.groups))
 
 
 class OneofSim(Simulator):
@@ -488,7 +516,8 @@ class OneofSim(Simulator):
                        "bytes (0-5 occurrences, members of the same group in any order, plain and unknown fields interleaved; "
                        "parse / load / load SIZE_DELIMITED; into the live object or a fresh one), from_dict (class form, "
                        "instance form on fresh and on live objects, camel and snake keys, JSON null), restarts (copy, deepcopy, "
-                       "pickle, FromString(bytes), from_dict(to_dict)) and interrupted loads (EIO at the k-th read, EOF inside "
+                       "pickle, FromString(bytes), from_dict(to_dict); the source object stays alive next to its copy and later "
+                       "operations hit either one) and interrupted loads (EIO at the k-th read, EOF inside "
                        "a field). All four observers run after every step.")
     nontrivial_rule = "the history has at least two operations."
     sim_time_unit = "operations"
@@ -499,7 +528,7 @@ class OneofSim(Simulator):
                    "a constructor call / class-form from_dict names at most one member per group (no defined 'last')",
                    "single actor: there is no interleaving to explore"]
     tiers = {
-        "quick": dict(runs=30000, chunk=250, wall_cap=300, det_sample=200),
+        "quick": dict(runs=15000, chunk=250, wall_cap=300, det_sample=150),
         "thorough": dict(runs=3000000, chunk=1000, wall_cap=1500, det_sample=3000),
     }
     expected_probes = ["probe:member-assigned-its-default-value", "probe:decode-with-several-members",
@@ -869,7 +898,7 @@ class ObserverSim(Simulator):
                    "serialized_on_wire of plain sub-message fields)", "an observer raising is recorded, not judged",
                    "nothing is demanded of a shallow copy's independence", "single actor: no interleaving to explore"]
     tiers = {
-        "quick": dict(runs=20000, chunk=250, wall_cap=300, det_sample=200),
+        "quick": dict(runs=12000, chunk=200, wall_cap=300, det_sample=120),
         "thorough": dict(runs=2000000, chunk=1000, wall_cap=1500, det_sample=3000),
     }
     expected_probes = ["probe:read-lazily-defaulted-nested-message", "probe:to_pydict-called",
